@@ -266,6 +266,13 @@
 #endif /* __SIZEOF_POINTER__ */
 #endif /* A_SIZE_POINTER */
 
+#if defined(LIBA_VERIF)
+/* verification hook: expands to VERIF_HOOK_<name>, supplied by the verifier; empty otherwise */
+#define A_VERIF_HOOK(name) VERIF_HOOK_##name
+#else /* !LIBA_VERIF */
+#define A_VERIF_HOOK(name)
+#endif /* LIBA_VERIF */
+
 /*! @brief assert a build-time dependency, as an expression */
 #define A_BUILD_ASSERT(x) (void)(sizeof(char[1 - 2 * !(x)]))
 /*! @brief assert a build-time dependency, as an expression */
